@@ -14,7 +14,7 @@ go build ./... || { echo "RESULT $name: does not build"; exit 1; }
 go vet ./... >/dev/null 2>&1 || echo "note: go vet reports something"
 if go test -count=1 $suite > "$d.suite.log" 2>&1; then echo "suite green with the change"; else echo "RESULT $name: existing suite FAILS with the change"; grep -E "^(--- FAIL|FAIL)" "$d.suite.log" | head; rm -f "$d.suite.log"; exit 1; fi
 rm -f "$d.suite.log"
-cp "$demo" "$d/$dest"
+mkdir -p "$(dirname "$d/$dest")"; cp "$demo" "$d/$dest"
 if go test -count=1 -run "$run" "$pkg" > "$d.with.log" 2>&1; then echo "RESULT $name: demo PASSES with the change (not a demonstration)"; rm -f "$d".*.log; exit 1; fi
 echo "demo fails with the change: $(grep -E -m2 '^\s+\S+_test.go|panic:' "$d.with.log" | tr '\n' ' ' | cut -c1-300)"
 git apply -R "$out/patch.diff"
